@@ -20,6 +20,7 @@ import (
 	"github.com/tikv/client-go/v2/kv"
 	"github.com/tikv/client-go/v2/tikv"
 	"github.com/tikv/client-go/v2/tikvrpc"
+	"github.com/tikv/client-go/v2/txnkv/transaction"
 
 	"verif/e2e/uni"
 	"verif/e2e/work"
@@ -57,6 +58,10 @@ type Shape struct {
 	// Fallback: the store refuses async commit / 1PC for this transaction (max_commit_ts too small, as after a slow
 	// prewrite; produced with the repository's own failpoint invalidMaxCommitTS) and the commit falls back to 2PC
 	Fallback bool
+	// FailedLock (pessimistic shapes): after the transaction has locked its primary, one LockKeys statement over
+	// two keys in two regions fails (no-wait conflict with another transaction's lock on the second key) before
+	// the transaction goes on and commits - state left in the committer by a failed statement
+	FailedLock bool
 }
 
 func (s Shape) String() string {
@@ -78,12 +83,21 @@ func (s Shape) String() string {
 	if s.Fallback {
 		m += "->fallback"
 	}
+	if s.FailedLock {
+		m += "+failed-lock-stmt"
+	}
 	return fmt.Sprintf("%s/%s/%s muts=%v splits=%q pre=%q", s.Backend, m, p, ms, s.Splits, s.Pre)
 }
 
 // Spec turns the shape into a transaction program.
 func (s Shape) Spec() work.Spec {
 	sp := work.Spec{Pessimistic: s.Pessimistic, Async: s.Async, OnePC: s.OnePC, Commit: true}
+	if s.FailedLock && s.Pessimistic && len(s.Muts) > 0 {
+		other := s.Muts[len(s.Muts)-1].Key
+		sp.Ops = append(sp.Ops,
+			work.Op{Kind: work.OpLock, Keys: []string{s.Muts[0].Key}},
+			work.Op{Kind: work.OpLock, Keys: []string{other, BlockedKey}, NoWait: true})
+	}
 	for _, m := range s.Muts {
 		switch m.Kind {
 		case MPut:
@@ -150,6 +164,9 @@ func (p Point) String() string { return fmt.Sprintf("%s#%d", p.Sig, p.N) }
 // (expired) locks; a fault-free call needs a few dozen.
 const LockerRPCBound = 5000
 
+// BlockedKey is the key another transaction holds a pessimistic lock on in FailedLock shapes (a region of its own).
+const BlockedKey = "k9"
+
 // Env is one prepared universe: layout, old values, victim and observer stores.
 type Env struct {
 	U      *uni.Universe
@@ -165,6 +182,7 @@ type Env struct {
 
 	cancelMu     sync.Mutex
 	cancelCommit context.CancelFunc
+	blocker      *transaction.KVTxn
 }
 
 type envCtxKey struct{}
@@ -217,6 +235,22 @@ func NewEnv(sh Shape) (*Env, error) {
 		}
 		u.Drain()
 	}
+	if sh.FailedLock {
+		u.SplitAt([]byte("k8"))
+		bt, err := obs.Begin()
+		if err != nil {
+			return nil, err
+		}
+		bt.SetPessimistic(true)
+		fu, err := obs.Store.CurrentTimestamp("global")
+		if err != nil {
+			return nil, err
+		}
+		if err := bt.LockKeys(context.Background(), kv.NewLockCtx(fu, 100, time.Now()), []byte(BlockedKey)); err != nil {
+			return nil, fmt.Errorf("blocker lock: %w", err)
+		}
+		e.blocker = bt
+	}
 	v, err := u.NewClient()
 	if err != nil {
 		return nil, err
@@ -226,7 +260,12 @@ func NewEnv(sh Shape) (*Env, error) {
 }
 
 // Close releases the universe.
-func (e *Env) Close() { e.U.Close() }
+func (e *Env) Close() {
+	if e.blocker != nil {
+		_ = e.blocker.Rollback()
+	}
+	e.U.Close()
+}
 
 // RunVictim executes the victim's program; the commitReturned channel is
 // closed when the program's Commit (or Rollback) call has returned.
